@@ -15,8 +15,10 @@ import (
 	"github.com/database64128/shadowsocks-go"
 	"github.com/database64128/shadowsocks-go/clientgroups"
 	"github.com/database64128/shadowsocks-go/conn"
+	"github.com/database64128/shadowsocks-go/direct"
 	"github.com/database64128/shadowsocks-go/jsoncfg"
 	"github.com/database64128/shadowsocks-go/netio"
+	"github.com/database64128/shadowsocks-go/ss2022"
 	"github.com/database64128/shadowsocks-go/zerocopy"
 	"go.uber.org/zap"
 	"golang.org/x/net/dns/dnsmessage"
@@ -26,8 +28,20 @@ import (
 )
 
 // Real-time smoke test of the UDP probe path (kernel sockets cannot run on the fake clock).
-// Every fake UDP client "tunnels" the probe's DNS query to its own scripted responder on
-// loopback; the responder answers, stays silent, or answers uselessly (wrong ID / SERVFAIL).
+// Every member carries the probe's DNS query to its own scripted responder on loopback; the
+// responder answers, stays silent, or answers uselessly (wrong ID / SERVFAIL). Member kinds:
+//
+//	fake    harness pass-through client (packets unchanged, sent straight to the responder)
+//	direct  the repo's direct.NewDirectUDPClient: sends to the probe address itself, which is
+//	        where this member's responder listens (at most one per group); a domain-name probe
+//	        address is resolved through the owned resolver (relay_test.go)
+//	ssnone  the repo's direct.NewShadowsocksNoneUDPClient talking to a harness relay (loopRelay)
+//	ss2022  the repo's ss2022.NewUDPClient talking to a harness relay that uses the harness's
+//	        own SS2022 codec
+//
+// For the relayed kinds the packer's destination is the relay, and the answer's payload source is
+// the DNS server address (IP form) - two different addresses, as with any real proxy.
+// The probe address is configured either as IP or as a domain name.
 // Outcomes are only {answer at once, no usable answer}: a silent round costs the whole timeout,
 // an answered one a few hundred microseconds, so the oracle needs no fine wall-clock reading.
 
@@ -37,7 +51,7 @@ const (
 	loopMargin   = 500 * time.Millisecond
 )
 
-var loopProbeAddrPort = netip.AddrPortFrom(netip.AddrFrom4([4]byte{127, 0, 0, 1}), 5353)
+var loopback4 = netip.AddrFrom4([4]byte{127, 0, 0, 1})
 
 type loopResponder struct {
 	uc      *net.UDPConn
@@ -108,6 +122,7 @@ type loopUDP struct {
 	id       int
 	name     string
 	dest     netip.AddrPort
+	src      netip.AddrPort // reported payload source: the DNS server address the prober asked for
 	sessions atomic.Int64
 }
 
@@ -121,7 +136,7 @@ func (c *loopUDP) NewSession(ctx context.Context) (zerocopy.UDPClientSessionInfo
 	return info, zerocopy.UDPClientSession{
 		MaxPacketSize: 1400 + c.id,
 		Packer:        loopPacker{c.dest},
-		Unpacker:      loopUnpacker{},
+		Unpacker:      loopUnpacker{c.src},
 		Close:         zerocopy.NoopClose,
 	}, nil
 }
@@ -133,18 +148,44 @@ func (p loopPacker) PackInPlace(_ context.Context, _ []byte, _ conn.Addr, payloa
 	return p.dest, payloadStart, payloadLen, nil
 }
 
-type loopUnpacker struct{}
+type loopUnpacker struct{ src netip.AddrPort }
 
 func (loopUnpacker) ClientUnpackerInfo() zerocopy.ClientUnpackerInfo {
 	return zerocopy.ClientUnpackerInfo{}
 }
-func (loopUnpacker) UnpackInPlace(_ []byte, _ netip.AddrPort, packetStart, packetLen int) (netip.AddrPort, int, int, error) {
-	return loopProbeAddrPort, packetStart, packetLen, nil
+func (u loopUnpacker) UnpackInPlace(_ []byte, _ netip.AddrPort, packetStart, packetLen int) (netip.AddrPort, int, int, error) {
+	return u.src, packetStart, packetLen, nil
 }
 
 type loopPlan struct {
 	Policy  string
 	Scripts []string // per configuration position, one action per round
+	Kinds   []string // per configuration position: fake | direct | ssnone | ss2022 (empty = all fake)
+	Domain  bool     // probe address given as a domain name instead of an IP
+}
+
+func (p *loopPlan) kind(i int) string {
+	if i < len(p.Kinds) && p.Kinds[i] != "" {
+		return p.Kinds[i]
+	}
+	return "fake"
+}
+
+func relayed(kind string) bool { return kind == "ssnone" || kind == "ss2022" }
+
+func (p *loopPlan) String() string {
+	addr := "ip"
+	if p.Domain {
+		addr = "domain"
+	}
+	return fmt.Sprintf("policy=%s address=%s kinds=%v scripts=%v", p.Policy, addr, p.Kinds, p.Scripts)
+}
+
+type loopStats struct {
+	relayedForwarded, relayedReturned int64
+	relayDomainTargets, relayIPTargets int64
+	resolverQueries                    int64
+	relayedWins                        bool // some judged round's allowed set starts with a relayed member
 }
 
 type loopSample struct {
@@ -153,33 +194,94 @@ type loopSample struct {
 }
 
 // runLoopPlan returns (violation, inconclusive reason).
-func runLoopPlan(p *loopPlan) (viol, inconclusive string) {
+func runLoopPlan(p *loopPlan) (viol, inconclusive string, st loopStats) {
 	n, R := len(p.Scripts), len(p.Scripts[0])
 	udpMap := map[string]zerocopy.UDPClient{}
 	resp := make([]*loopResponder, n)
-	clients := make([]*loopUDP, n)
 	names := make([]string, n)
+	posOfName := map[string]int{}
+	port := uint16(5353) // nothing listens here; only a direct member sends to the probe address itself
+	directs := 0
 	for i := 0; i < n; i++ {
 		r, err := newLoopResponder(p.Scripts[i])
 		if err != nil {
-			return "", "listen: " + err.Error()
+			return "", "listen: " + err.Error(), st
 		}
 		defer r.uc.Close()
 		go r.serve()
 		resp[i] = r
-		clients[i] = &loopUDP{id: i, name: fmt.Sprintf("u%d", i), dest: r.addrPort()}
-		names[i] = clients[i].name
-		udpMap[names[i]] = clients[i]
+		if p.kind(i) == "direct" {
+			port = r.addrPort().Port()
+			directs++
+		}
 	}
+	if directs > 1 {
+		return "HARNESS: more than one direct member", "", st
+	}
+	probeAP := netip.AddrPortFrom(loopback4, port)
+	address := conn.AddrFromIPPort(probeAP)
+	ownedName := ""
+	if p.Domain {
+		installResolver()
+		ownedName = newOwnedName()
+		address = conn.MustAddrFromDomainPort(ownedName, port)
+	}
+	var relays []*loopRelay
+	for i := 0; i < n; i++ {
+		name := fmt.Sprintf("u%d", i)
+		names[i], posOfName[name] = name, i
+		lc := conn.DefaultUDPClientListenConfig
+		switch kind := p.kind(i); kind {
+		case "fake":
+			udpMap[name] = &loopUDP{id: i, name: name, dest: resp[i].addrPort(), src: probeAP}
+		case "direct":
+			udpMap[name] = direct.NewDirectUDPClient(name, "ip4", 1500, lc)
+		case "ssnone", "ss2022":
+			psk := make([]byte, 16)
+			for j := range psk {
+				psk[j] = byte(37*i + 11*j + 5)
+			}
+			rl, err := newLoopRelay(kind, resp[i].addrPort(), probeAP, psk, 0x5e55_0000+uint64(i))
+			if err != nil {
+				return "", "listen: " + err.Error(), st
+			}
+			defer rl.close()
+			relays = append(relays, rl)
+			relayAddr := conn.AddrFromIPPort(rl.addrPort())
+			if kind == "ssnone" {
+				udpMap[name] = direct.NewShadowsocksNoneUDPClient(name, "ip4", relayAddr, 1500, lc)
+			} else {
+				cc, err := ss2022.NewClientCipherConfig(psk, nil, true)
+				if err != nil {
+					return "HARNESS: ss2022 cipher config: " + err.Error(), "", st
+				}
+				udpMap[name] = ss2022.NewUDPClient(name, "ip4", relayAddr, 1500, lc, 0, cc, ss2022.NoPadding)
+			}
+		default:
+			return "HARNESS: unknown member kind " + kind, "", st
+		}
+	}
+	defer func() {
+		for _, rl := range relays {
+			st.relayedForwarded += rl.forwarded.Load()
+			st.relayedReturned += rl.returned.Load()
+			st.relayDomainTargets += rl.domainSeen.Load()
+			st.relayIPTargets += rl.ipSeen.Load()
+			if u := rl.undecodable.Load(); u != 0 && viol == "" && inconclusive == "" {
+				viol = fmt.Sprintf("HARNESS: relay could not decode %d packets of its member", u)
+			}
+		}
+		st.resolverQueries = ownedNameQueries(ownedName)
+	}()
 	cfg := clientgroups.ClientGroupConfig{Name: "grp"}
 	cfg.UDP.Policy = clientgroups.ClientSelectionPolicy(p.Policy)
 	cfg.UDP.Clients = names
 	cfg.UDP.Probe.Timeout = jsoncfg.Duration(loopTimeout)
 	cfg.UDP.Probe.Interval = jsoncfg.Duration(loopInterval)
-	cfg.UDP.Probe.Address = conn.AddrFromIPPort(loopProbeAddrPort)
+	cfg.UDP.Probe.Address = address
 	var services []shadowsocks.Service
 	if err := cfg.AddClientGroup(zap.NewNop(), map[string]netio.StreamClient{}, udpMap, func(s shadowsocks.Service) { services = append(services, s) }); err != nil {
-		return "HARNESS: AddClientGroup: " + err.Error(), ""
+		return "HARNESS: AddClientGroup: " + err.Error(), "", st
 	}
 	group := udpMap["grp"]
 	ctx, cancel := context.WithCancel(context.Background())
@@ -192,7 +294,7 @@ func runLoopPlan(p *loopPlan) (viol, inconclusive string) {
 	start := time.Now()
 	for _, s := range services {
 		if err := s.Start(ctx); err != nil {
-			return "HARNESS: Start: " + err.Error(), ""
+			return "HARNESS: Start: " + err.Error(), "", st
 		}
 	}
 	// sample the selection every 25 ms until the last round's slack is over
@@ -208,10 +310,10 @@ func runLoopPlan(p *loopPlan) (viol, inconclusive string) {
 			if at > end {
 				return
 			}
-			info, sess, err := group.NewSession(uctx)
-			id := sess.MaxPacketSize - 1400
-			if err != nil || id < 0 || id >= n || info.Name != names[id] {
-				bad = fmt.Sprintf("NewSession returned %q mps %d err %v", info.Name, sess.MaxPacketSize, err)
+			info, _, err := group.NewSession(uctx)
+			id, ok := posOfName[info.Name]
+			if err != nil || !ok {
+				bad = fmt.Sprintf("NewSession returned %q err %v", info.Name, err)
 				return
 			}
 			samples = append(samples, loopSample{at, id})
@@ -220,19 +322,27 @@ func runLoopPlan(p *loopPlan) (viol, inconclusive string) {
 	}()
 	wg.Wait()
 	if bad != "" {
-		return fmt.Sprintf("SIG=C19/%s/udp-outside-group %s", p.Policy, bad), ""
+		return fmt.Sprintf("SIG=C19/%s/udp-outside-group %s", p.Policy, bad), "", st
 	}
 
 	// the harness's own timing assumptions: every responder saw exactly one query per round, near the tick
 	for i, r := range resp {
-		if q := r.queries.Load(); q != int64(R) {
-			return "", fmt.Sprintf("responder %d saw %d queries in %d rounds (machine too slow or probe lost)", i, q, R)
+		q := r.queries.Load()
+		if q == 0 {
+			// not a timing matter: this member's probes never reach its responder. The scripted outcome of
+			// every round is then "no answer", whatever the script says; the oracle below decides.
+			p = &loopPlan{Policy: p.Policy, Kinds: p.Kinds, Domain: p.Domain, Scripts: append([]string(nil), p.Scripts...)}
+			p.Scripts[i] = strings.Repeat("D", R)
+			continue
+		}
+		if q != int64(R) {
+			return "", fmt.Sprintf("responder %d saw %d queries in %d rounds (machine too slow or probe lost)", i, q, R), st
 		}
 		for k := 0; k < R; k++ {
 			at := time.Duration(r.arrived[k].Load() - start.UnixNano())
 			tick := time.Duration(k+1) * loopInterval
 			if at < tick-loopMargin/2 || at > tick+loopMargin {
-				return "", fmt.Sprintf("responder %d round %d query arrived at %v, tick %v", i, k+1, at, tick)
+				return "", fmt.Sprintf("responder %d round %d query arrived at %v, tick %v", i, k+1, at, tick), st
 			}
 		}
 	}
@@ -305,7 +415,7 @@ func runLoopPlan(p *loopPlan) (viol, inconclusive string) {
 				if initial < 0 {
 					initial = s.pos
 				} else if s.pos != initial {
-					return fmt.Sprintf("SIG=C19/%s/udp-switch-before-first-round selection changed from u%d to u%d at %v", p.Policy, initial, s.pos, s.at), ""
+					return fmt.Sprintf("SIG=C19/%s/udp-switch-before-first-round selection changed from u%d to u%d at %v [%v]", p.Policy, initial, s.pos, s.at, p), "", st
 				}
 			}
 			continue
@@ -319,72 +429,162 @@ func runLoopPlan(p *loopPlan) (viol, inconclusive string) {
 		switch {
 		case off > loopMargin && off < loopTimeout-loopMargin && roundLastsTimeout(k):
 			if !prev[s.pos] {
-				return fmt.Sprintf("SIG=C19/%s/udp-switch-during-round at %v (round %d running) group serves u%d, allowed %v; scripts %v", p.Policy, s.at, k, s.pos, prev, p.Scripts), ""
+				return fmt.Sprintf("SIG=C19/%s/udp-switch-during-round at %v (round %d running) group serves u%d, allowed %v [%v]", p.Policy, s.at, k, s.pos, prev, p), "", st
 			}
 		case off > loopTimeout+loopMargin && off < loopInterval-loopMargin:
-			if a := allowed(k); !a[s.pos] {
-				return fmt.Sprintf("SIG=C19/%s/udp-choice-after-round at %v (after round %d) group serves u%d, allowed %v; scripts %v", p.Policy, s.at, k, s.pos, a, p.Scripts), ""
+			a := allowed(k)
+			for i, ok := range a {
+				if ok {
+					st.relayedWins = st.relayedWins || relayed(p.kind(i))
+					break
+				}
+			}
+			if !a[s.pos] {
+				return fmt.Sprintf("SIG=C19/%s/udp-choice-after-round at %v (after round %d) group serves u%d, allowed %v [%v]", p.Policy, s.at, k, s.pos, a, p), "", st
 			}
 		}
 	}
-	return "", ""
+	return "", "", st
 }
 
-var recLoop = ev.New("C19", "udp-probe-loopback",
-	"real time on loopback: UDP group (availability / latency / min-max-latency) of 2..4 pass-through UDP clients, each tunnelling the DNS probe to its own scripted responder "+
-		"(answer / silent / wrong-ID / SERVFAIL per round), timeout 1.5 s, interval 3.5 s, 2..4 rounds; selection sampled every 25 ms and judged only inside windows 500 ms away from every tick/timeout edge; "+
-		"cases whose probe arrival times miss the harness's timing assumptions are counted as inconclusive-timing, retried once, never failed. Non-trivial: >=3 clients and a switch expected; distinct key = policy|scripts").
-	Require("policy/availability")
+const loopRule = "real time on loopback: UDP group (availability / latency / min-max-latency) of 2..4 members, each carrying the DNS probe to its own scripted responder " +
+	"(answer / silent / wrong-ID / SERVFAIL per round); member kinds: harness pass-through client, the repo's direct UDP client (responder listens at the probe address; at most one), " +
+	"the repo's Shadowsocks-none and Shadowsocks-2022 UDP clients talking to a harness relay that forwards to the responder and reports the DNS server (IP form) as payload source; " +
+	"probe address configured as IP or as a domain name resolved by an owned resolver; timeout 1.5 s, interval 3.5 s, 2..4 rounds; selection sampled every 25 ms and judged only inside windows " +
+	"500 ms away from every tick/timeout edge; cases whose probe arrival times miss the harness's timing assumptions are retried once and then counted inconclusive-timing, never failed. "
+
+var recLoop = ev.New("C19", "udp-probe-loopback", loopRule+"Random plans (thorough). Non-trivial: >=3 members, a relayed member, first member not always answering; distinct key = plan").
+	Require("policy/availability", "udp-probe-via-relayed-member", "udp-probe-domain-address", "udp-probe-ip-address", "relayed-member-expected-to-win")
+
+var recLoopFixed = ev.New("C19", "udp-probe-loopback-fixed", loopRule+"Six fixed plans of 2 rounds run side by side (quick and thorough). Non-trivial: all; distinct key = plan").
+	Require("udp-probe-via-relayed-member", "udp-probe-domain-address", "udp-probe-ip-address", "relayed-member-expected-to-win", "relayed-member-expected-to-win/domain",
+		"kind/ssnone", "kind/ss2022", "kind/direct", "domain-resolved-by-owned-resolver")
+
+// runLoopPlans runs the plans side by side (each one retried once if it fails or misses a
+// real-time assumption) and records them.
+func runLoopPlans(rec *ev.Recorder, plans []*loopPlan, failf func(format string, a ...any), logf func(format string, a ...any)) {
+	k := len(plans)
+	viols := make([]string, k)
+	incs := make([]string, k)
+	stats := make([]loopStats, k)
+	var wg sync.WaitGroup
+	for g, p := range plans {
+		wg.Add(1)
+		go func() {
+			defer wg.Done()
+			viols[g], incs[g], stats[g] = runLoopPlan(p)
+			if viols[g] != "" || incs[g] != "" {
+				// a missed real-time bound is retried once before it counts
+				viols[g], incs[g], stats[g] = runLoopPlan(p)
+			}
+		}()
+	}
+	wg.Wait()
+	for g, p := range plans {
+		if viols[g] != "" {
+			if sig := sigOf(viols[g]); sig != "" && ev.IsKnown("C19", sig) {
+				rec.KnownHit(sig)
+				continue
+			}
+			failf("%s", viols[g])
+			return
+		}
+		if incs[g] != "" {
+			rec.Label("inconclusive-timing", 1)
+			logf("inconclusive: %s [%v]", incs[g], p)
+			continue
+		}
+		n, st := len(p.Scripts), stats[g]
+		labels := []string{"policy/" + p.Policy, fmt.Sprintf("n=%d", n)}
+		hasRelayed := false
+		seenKind := map[string]bool{}
+		for i := 0; i < n; i++ {
+			kd := p.kind(i)
+			if !seenKind[kd] {
+				seenKind[kd] = true
+				labels = append(labels, "kind/"+kd)
+			}
+			hasRelayed = hasRelayed || relayed(kd)
+		}
+		// "via relayed member" is claimed only when the relays really carried queries and answers
+		if hasRelayed && st.relayedForwarded > 0 && st.relayedReturned > 0 {
+			labels = append(labels, "udp-probe-via-relayed-member")
+		}
+		addr := "ip"
+		if p.Domain {
+			addr = "domain"
+			labels = append(labels, "udp-probe-domain-address")
+			if st.relayDomainTargets > 0 {
+				labels = append(labels, "domain-carried-through-relay")
+			}
+			if st.resolverQueries > 0 && seenKind["direct"] {
+				labels = append(labels, "domain-resolved-by-owned-resolver")
+			}
+		} else {
+			labels = append(labels, "udp-probe-ip-address")
+		}
+		if st.relayedWins {
+			labels = append(labels, "relayed-member-expected-to-win", "relayed-member-expected-to-win/"+addr)
+		}
+		nt := n >= 3 && hasRelayed && strings.ContainsAny(p.Scripts[0], "DWF")
+		if rec == recLoopFixed {
+			nt = true
+		}
+		rec.Case(p.String(), nt, labels...)
+		if nt {
+			rec.Sample(map[string]any{"policy": p.Policy, "address": addr, "kinds": p.Kinds, "scripts": p.Scripts,
+				"relayForwarded": st.relayedForwarded, "relayReturned": st.relayedReturned, "resolverQueries": st.resolverQueries})
+		}
+	}
+}
 
 // TestUDPProbeLoopback smoke-tests the UDP probe socket path with the same policies (thorough tier).
 func TestUDPProbeLoopback(t *testing.T) {
 	if os.Getenv("VERIF_TIER") != "thorough" && os.Getenv("VERIF_C19_LOOPBACK") == "" {
-		t.Skip("real-time loopback test runs in the thorough tier only")
+		t.Skip("real-time random loopback plans run in the thorough tier only")
 	}
 	rapid.Check(t, func(rt *rapid.T) {
 		// several groups per case run side by side to use the wall-clock time
-		k := rapid.IntRange(3, 6).Draw(rt, "groups")
+		k := rapid.IntRange(4, 7).Draw(rt, "groups")
 		plans := make([]*loopPlan, k)
 		for g := range plans {
 			n := rapid.IntRange(2, 4).Draw(rt, "n")
 			R := rapid.IntRange(2, 4).Draw(rt, "rounds")
 			p := &loopPlan{Policy: rapid.SampledFrom([]string{polAvailability, polAvailability, polLatency, polMinMax}).Draw(rt, "policy")}
+			p.Domain = rapid.Bool().Draw(rt, "domain")
+			direct := false
 			for i := 0; i < n; i++ {
 				var b strings.Builder
 				for r := 0; r < R; r++ {
 					b.WriteByte(rapid.SampledFrom([]byte("AAAADDWF")).Draw(rt, "act"))
 				}
 				p.Scripts = append(p.Scripts, b.String())
+				kind := rapid.SampledFrom([]string{"fake", "ssnone", "ssnone", "ss2022", "ss2022", "direct"}).Draw(rt, "kind")
+				if kind == "direct" {
+					if direct {
+						kind = "ssnone"
+					}
+					direct = true
+				}
+				p.Kinds = append(p.Kinds, kind)
 			}
 			plans[g] = p
 		}
-		viols := make([]string, k)
-		incs := make([]string, k)
-		var wg sync.WaitGroup
-		for g, p := range plans {
-			wg.Add(1)
-			go func() {
-				defer wg.Done()
-				viols[g], incs[g] = runLoopPlan(p)
-				if viols[g] != "" || incs[g] != "" {
-					// a missed real-time bound is retried once before it counts
-					viols[g], incs[g] = runLoopPlan(p)
-				}
-			}()
-		}
-		wg.Wait()
-		for g, p := range plans {
-			if viols[g] != "" {
-				rt.Fatalf("%s", viols[g])
-			}
-			if incs[g] != "" {
-				recLoop.Label("inconclusive-timing", 1)
-				rt.Logf("inconclusive: %s", incs[g])
-				continue
-			}
-			n := len(p.Scripts)
-			recLoop.Case(p.Policy+"|"+strings.Join(p.Scripts, ","), n >= 3 && strings.ContainsAny(strings.Join(p.Scripts[1:], ""), "A") && strings.ContainsAny(p.Scripts[0], "DWF"),
-				"policy/"+p.Policy, fmt.Sprintf("n=%d", n))
-		}
+		runLoopPlans(recLoop, plans, rt.Fatalf, rt.Logf)
 	})
+}
+
+// TestUDPProbeLoopbackFixed runs six fixed two-round plans side by side (about 10 s of wall clock):
+// relayed members (Shadowsocks none, Shadowsocks 2022) must be recognised as healthy and chosen
+// over a dead first member, with the probe address given as IP and as a domain name.
+func TestUDPProbeLoopbackFixed(t *testing.T) {
+	plans := []*loopPlan{
+		{Policy: polAvailability, Domain: true, Kinds: []string{"fake", "ssnone", "ss2022"}, Scripts: []string{"DD", "AA", "AA"}},
+		{Policy: polAvailability, Domain: false, Kinds: []string{"ssnone", "ss2022", "fake"}, Scripts: []string{"DD", "AA", "AA"}},
+		{Policy: polLatency, Domain: true, Kinds: []string{"direct", "ss2022", "ssnone"}, Scripts: []string{"DD", "AA", "DA"}},
+		{Policy: polMinMax, Domain: true, Kinds: []string{"ss2022", "ssnone", "direct"}, Scripts: []string{"FF", "AA", "AA"}},
+		{Policy: polAvailability, Domain: true, Kinds: []string{"direct", "ssnone"}, Scripts: []string{"AA", "AA"}},
+		{Policy: polAvailability, Domain: false, Kinds: []string{"direct", "ssnone", "ss2022"}, Scripts: []string{"WD", "DA", "AA"}},
+	}
+	runLoopPlans(recLoopFixed, plans, t.Fatalf, t.Logf)
 }
